@@ -4,7 +4,8 @@ import os
 from . import common, ops as O
 from .absx import Layout, abstract
 from .common import Inputs, pattern, snapshot, restore, props as mkprops, DEFAULT_NS
-from .engine_s import Spec, plain_attrs
+from .engine_s import Spec, plain_attrs, is_opaque
+from . import gstate
 from .model import Model
 
 CONTENTS = {"A": pattern(5000, 1), "B": pattern(10, 2), "C": pattern(300, 3)}
@@ -85,21 +86,59 @@ class ModelSpec(Spec):
                 raise common.SetupFailure("initial history violates the model: %r %r" % (op, v))
         t = snapshot(root)
         self.fresh_attrs = plain_attrs(store)
+        self.tree0 = t
         return t, (m, None)
 
     def aux_key(self, aux):
         m, attrs = aux
-        return (m.key(), repr(sorted(attrs.items())) if attrs else None)
+        if attrs and "__history__" in attrs:
+            return (m.key(), "H", attrs["__fp__"])
+        return (m.key(), repr(sorted(attrs.items(), key=repr)) if attrs else None)
 
-    def transition(self, root, tree, aux, op):
-        m0, attrs = aux
+    def _instance_for(self, root, tree, attrs):
+        """Fresh instance over `tree` carrying the hidden state of the explored state: instance attributes and package
+        globals by value where they pickle, by replaying the state's history otherwise."""
+        gstate.reset()
+        hist = attrs.get("__history__") if attrs else None
+        if hist is not None:
+            restore(root, self.tree0)
+            store = make_store(root, self.p, self.env)
+            fresh = plain_attrs(store)
+            for h in hist:
+                O.run(store, tuple(h), self.ctx)
+            if common.tree_key(snapshot(root)) != common.tree_key(tree):
+                raise common.HarnessError("replaying the history %r does not re-create the explored tree" % (hist,))
+            return store, fresh, list(hist)
         restore(root, tree)
         store = make_store(root, self.p, self.env)
         fresh = plain_attrs(store)
         if attrs:
             for k, v in attrs.items():
-                setattr(store, k, v if not (isinstance(v, tuple) and v and v[0] == "path") else type(store.root)(v[1]))
+                if k == "@globals":
+                    gstate.apply(dict(v))
+                else:
+                    setattr(store, k, v if not (isinstance(v, tuple) and v and v[0] == "path") else type(store.root)(v[1]))
+        return store, fresh, None
+
+    def _hidden_after(self, store, fresh, hist, op):
+        """aux part describing the hidden state after the call."""
+        after = plain_attrs(store)
+        drift = {k: v for k, v in after.items() if fresh.get(k) != v}
+        gby, gop = gstate.drift()
+        if hist is not None or gop or any(is_opaque(v) for v in drift.values()):
+            h = (hist if hist is not None else [list(x) for x in getattr(self, "cur_history", [])]) + [list(op)]
+            return {"__history__": h,
+                    "__fp__": gstate.fingerprint((sorted((k, repr(v)) for k, v in drift.items()),
+                                                  sorted((repr(k), repr(v)) for k, v in gby.items()), gop))}
+        if gby:
+            drift["@globals"] = tuple(sorted(gby.items()))
+        return drift or None
+
+    def transition(self, root, tree, aux, op):
+        m0, attrs = aux
+        store, fresh, hist = self._instance_for(root, tree, attrs)
         out = O.run(store, op, self.ctx)
+        hidden = self._hidden_after(store, fresh, hist, op)  # before any probing call below touches the instance
         t2 = snapshot(root)
         a = self.abstract(t2)
         m = m0.copy()
@@ -125,9 +164,7 @@ class ModelSpec(Spec):
                                  {"detail": s, "pid": pid, "state": _mkey(m0), "call": O.name(op)}))
         for sig, det in self.extra_checks(m0, m, op, out, tree, t2, a, store):
             viol.append((sig, det))
-        after = plain_attrs(store)
-        drift = {k: v for k, v in after.items() if fresh.get(k) != v}
-        naux = (m, drift or None)
+        naux = (m, hidden)
         if vs or vs2:
             naux = None  # a violating transition is reported and not expanded
         return t2, naux, viol, out[0]
